@@ -1,6 +1,5 @@
 #!/bin/sh
 # MANIFEST.setup_cmd: build the framework offline from files on disk only.
-set -e
 here=$(cd "$(dirname "$0")" && pwd)
 cd "$here"
 # jsonschema (absent from /venv) into a private directory; /venv itself is left untouched
@@ -9,10 +8,17 @@ if [ ! -d .pydeps/jsonschema ]; then
       jsonschema referencing rpds_py attrs jsonschema_specifications >/dev/null 2>&1 || \
   echo "setup: jsonschema could not be installed (C08 will say so)"
 fi
-# regenerate lean/Gen from the working tree, then build every theorem module and every driver
-/venv/bin/python harness/translate.py || true
+# regenerate lean/Gen from the working tree, then build every theorem module and every driver.
+# Each target is built on its own so that one broken module cannot take the others down; a module
+# that does not build is reported by its own check.
+/venv/bin/python harness/translate.py || echo "setup: translator reported a failing item"
 cd lean
-lake build
-drivers=$(ls Drivers/*.lean 2>/dev/null | sed 's#Drivers/\(.*\)\.lean#drv_\1#')
-[ -n "$drivers" ] && lake build $drivers
+for f in GeffProps/C*.lean; do
+  m=$(echo "$f" | sed 's#/#.#; s#\.lean$##')
+  lake build "$m" >/dev/null 2>&1 || echo "setup: $m does not build"
+done
+for f in Drivers/*.lean; do
+  d=$(echo "$f" | sed 's#Drivers/\(.*\)\.lean#drv_\1#')
+  lake build "$d" >/dev/null 2>&1 || echo "setup: $d does not build"
+done
 echo "setup: done"
